@@ -263,6 +263,7 @@ struct Tally {
     nontrivial: Vec<u64>,
     violations: Vec<Violation>,
     sample: Option<serde_json::Value>,
+    hybrid_candidates: u64,
 }
 
 fn shape(f: &Filter) -> String {
@@ -472,6 +473,76 @@ fn check_hybrid(data: &Data, f: &Filter, t: &mut Tally) {
     }
 }
 
+/// Candidate law of the hybrid search: every document one of the component searches
+/// ranks inside the hybrid search's own window (top_k = 10 x limit per index, read off
+/// through the single-index searches at limit 10 x L) IS a relevance-ordered candidate,
+/// so a filter that matches exactly that document must return it - wherever the fusion
+/// puts it - and a filter matching two such documents must return both for limit 2.
+fn check_hybrid_candidates(data: &Data, t: &mut Tally) {
+    let searches = [
+        ("alpha", vec![24.0f32, 1.0, 2.0, 3.0]),
+        ("alpha gamma", vec![1.0, 1.0, 2.0, 3.0]),
+        ("beta", vec![12.0, 1.0, 2.0, 3.0]),
+    ];
+    for (text, vector) in searches {
+        for l in [1usize, 2] {
+            util::block_on(async {
+                let window = Some(10 * l);
+                let text_only = data.coll.search_ids(Query { search: Some(Search { text: Some(text.into()), ..Default::default() }), filter: None, limit: window }).await.expect("text search");
+                let vec_only = data.coll.search_ids(Query { search: Some(Search { vector: Some(vector.clone()), ..Default::default() }), filter: None, limit: window }).await.expect("vector search");
+                let mut cands: Vec<u64> = text_only.clone();
+                for x in &vec_only {
+                    if !cands.contains(x) {
+                        cands.push(*x);
+                    }
+                }
+                t.hybrid_candidates = t.hybrid_candidates.max(cands.len() as u64);
+                let hybrid = Search { text: Some(text.into()), vector: Some(vector.clone()), ..Default::default() };
+                let mut singles: Vec<(Filter, Vec<u64>)> = Vec::new();
+                for x in &cands {
+                    singles.push((Filter::Field(("_id".into(), RangeQuery::Eq(Fv::U64(*x)))), vec![*x]));
+                    singles.push((Filter::Field(("_id".into(), RangeQuery::Include(vec![Fv::U64(*x)]))), vec![*x]));
+                    let name = data.model.docs[x].name.clone();
+                    singles.push((Filter::Field(("name".into(), RangeQuery::Eq(Fv::Text(name)))), vec![*x]));
+                }
+                if l == 2 {
+                    // the two documents the component lists rank LAST: the ones a cut of the fused list loses first
+                    if let (Some(a), Some(b)) = (text_only.last(), vec_only.last())
+                        && a != b
+                    {
+                        singles.push((Filter::Field(("_id".into(), RangeQuery::Include(vec![Fv::U64(*a), Fv::U64(*b)]))), vec![*a, *b]));
+                    }
+                }
+                for (f, want) in singles {
+                    t.evaluations += 1;
+                    let got = data.coll.search_ids(Query { search: Some(hybrid.clone()), filter: Some(f.clone()), limit: Some(l) }).await;
+                    let ok = match &got {
+                        Ok(g) => {
+                            let mut a = g.clone();
+                            a.sort_unstable();
+                            let mut b = want.clone();
+                            b.sort_unstable();
+                            b.truncate(l.max(want.len().min(l)));
+                            if want.len() <= l { a == b } else { a.len() == l && a.iter().all(|x| want.contains(x)) }
+                        }
+                        Err(_) => false,
+                    };
+                    if !ok {
+                        t.violations.push(Violation {
+                            signature: format!("C03|search_ids(hybrid+filter)|component-candidate-lost|{}", shape(&f)),
+                            summary: format!(
+                                "dataset {} hybrid search text {text:?} vector {:?} limit {l}: filter {f:?} matches exactly {want:?}, which the component searches rank inside the hybrid window (text {text_only:?}, vector {vec_only:?}), but the filtered search returned {got:?}",
+                                data.name, vector[0]
+                            ),
+                            replay: json!({"dataset": data.name, "filter": f, "entry": "hybrid-candidates", "limit": l}),
+                        });
+                    }
+                }
+            });
+        }
+    }
+}
+
 fn main() {
     let mut run = Run::from_args("C03", "scope", "exploration");
     let sets: Vec<Data> = datasets().into_iter().map(|(n, d)| build(n, d)).collect();
@@ -482,6 +553,9 @@ fn main() {
         let data = sets.iter().find(|d| d.name == r["dataset"].as_str().unwrap()).expect("dataset");
         let filter: Filter = serde_json::from_value(r["filter"].clone()).expect("filter");
         let mut t = Tally::default();
+        if r["entry"] == "hybrid-candidates" {
+            check_hybrid_candidates(data, &mut t);
+        }
         check_case(&Case { data, filter: filter.clone() }, &mut t);
         check_search(data, &filter, &mut t);
         if data.name == "many" {
@@ -531,6 +605,18 @@ fn main() {
             for y in &rep {
                 level2.push(Filter::And(vec![Box::new(x.clone()), Box::new(y.clone())]));
                 level2.push(Filter::Or(vec![Box::new(x.clone()), Box::new(y.clone())]));
+            }
+        }
+        // every `_id` atom against every representative operand, in both positions: an
+        // operand after the first is evaluated against the survivors of the earlier
+        // ones, and the primary-key leaves have their own candidate-restricted code path
+        let id_atoms = atoms(&consts(data, "_id"));
+        for ia in &id_atoms {
+            let leaf = Filter::Field(("_id".to_string(), ia.clone()));
+            for y in &rep {
+                level2.push(Filter::And(vec![Box::new(leaf.clone()), Box::new(y.clone())]));
+                level2.push(Filter::And(vec![Box::new(y.clone()), Box::new(leaf.clone())]));
+                level2.push(Filter::Or(vec![Box::new(y.clone()), Box::new(leaf.clone())]));
             }
         }
         // single-operand composites (the documented equivalence F == And([F]) == Or([F]))
@@ -590,6 +676,22 @@ fn main() {
         }
     }
 
+    // hybrid candidate law (once per dataset with candidate lists longer than the page)
+    for data in &sets {
+        if data.name == "many" {
+            let mut t = Tally::default();
+            check_hybrid_candidates(data, &mut t);
+            run.add("evaluations", t.evaluations);
+            run.add("hybrid_candidate_law_cases", t.evaluations);
+            run.set("hybrid_component_candidates_max", json!(t.hybrid_candidates));
+            if t.hybrid_candidates <= 10 {
+                vcore::report::machinery("hybrid candidate law is vacuous: the component searches never list more than top_k = 10 distinct documents");
+            }
+            for v in t.violations {
+                run.violation(v);
+            }
+        }
+    }
     let threads = util::n_threads();
     let chunks: Vec<Vec<Case>> = {
         let mut cs: Vec<Vec<Case>> = (0..threads * 4).map(|_| Vec::new()).collect();
@@ -627,7 +729,7 @@ fn main() {
         }
     }
     run.rule(
-        "all filter trees to depth 3 (range-level and filter-level And/Or/Not over Eq/Gt/Ge/Lt/Le/Between incl. inverted/Include incl. dup+empty) over _id and 5 B-tree indexes (scalar, optional, array, unique scalar, UNIQUE ARRAY whose documents hold several keys) of 2 collections with key order de-correlated from id order, x limits {None,0..n+1,MAX+1} x {query_ids, query_last_ids, query_all_ids, search_ids}; depth 2/3 composites over a deterministic stride of representative operands; non-trivial = model result neither empty nor everything; distinct by (dataset, filter)",
+        "all filter trees to depth 3 (range-level and filter-level And/Or/Not over Eq/Gt/Ge/Lt/Le/Between incl. inverted/Include incl. dup+empty) over _id and 5 B-tree indexes (scalar, optional, array, unique scalar, UNIQUE ARRAY whose documents hold several keys) of 2 collections with key order de-correlated from id order, x limits {None,0..n+1,MAX+1} x {query_ids, query_last_ids, query_all_ids, search_ids}; depth 2/3 composites over a deterministic stride of representative operands, plus EVERY `_id` atom against every representative operand in both positions; hybrid candidate law on the 24-document dataset: every document a component search ranks inside the hybrid window (read off through the single-index searches at limit 10 x L) is returned by the hybrid search under a filter matching exactly it (three filter spellings), for L in {1,2}; non-trivial = model result neither empty nor everything; distinct by (dataset, filter)",
     );
     run.assume("collections of 5-6 live documents plus one of 24 whose search candidate lists exceed the page (hybrid text+vector search with a filter: subset, prefix and tautology laws); constants from the boundary set of each index");
     run.finish();
